@@ -201,8 +201,10 @@ def foreign_kit(rnd: random.Random, rows: list[tuple[str, str]], per_kind: int) 
 
 
 def proj(gwy: Any, tr: Any) -> list:
+    """<<es, hdl, snd, rd, pw, disc>> of Engine.tla; tr = None: no transport yet (nothing is reading)."""
     es = "none" if gwy._engine_state is None else ("partial" if gwy._engine_state[0] is None and gwy._protocol._msg_handler is not None else "saved")
-    return [es, int(gwy._protocol._msg_handler is not None), int(bool(gwy._disable_sending)), int(bool(tr.reading)),
+    return [es, int(gwy._protocol._msg_handler is not None), int(bool(gwy._disable_sending)),
+            int(bool(tr is not None and tr.reading)),
             int(bool(gwy._protocol._pause_writing)), int(bool(gwy.config.disable_discovery))]
 
 
@@ -223,17 +225,20 @@ class Recorder:
     def __init__(self) -> None:
         self.ev: list[dict] = []
         self.detail: list[str] = []
+        self.bound = 1      # Engine.tla's tr: 0 while the gateway has not been started yet
 
     def add(self, k: str, name: str, res: str, before: list | None = None, after: list | None = None, detail: str = "") -> None:
         z = ["none", 1, 0, 1, 0, 0]
-        self.ev.append({"k": k, "name": name, "res": res, "before": before or z, "after": after or z})
+        self.ev.append({"k": k, "name": name, "res": res, "before": before or z, "after": after or z, "tr": self.bound})
         self.detail.append(detail)
 
 
 async def observe(gwy: Any, tr: Any, rec: Recorder, state: dict, verbose: bool = False, nodisc: int = 1,
-                  light: bool = False) -> bool:
+                  light: bool = False, cache: dict[str, str] | None = None) -> bool:
     """One observation point.  Returns False if the engine is no longer running (stop the history).
-    light: the public views only (after a single role-swapped packet, before the next one replaces it)."""
+    light: the public views only (after a single role-swapped packet, before the next one replaces it).
+    tr = None: the gateway has not been started yet (point zero of the history) - views and operations only, the
+    probes need a transport; cache: the snapshot of an earlier session, restored where the gateway's own one is empty."""
     from ramses_tx import Command, Priority
 
     await vloop.drain()
@@ -280,6 +285,8 @@ async def observe(gwy: Any, tr: Any, rec: Recorder, state: dict, verbose: bool =
             ok = False
             break
         if pk is not None:
+            if not pk and cache:
+                pk = dict(cache)
             before = proj(gwy, tr)
             try:
                 await gwy._restore_cached_packets(pk)
@@ -422,6 +429,8 @@ async def observe(gwy: Any, tr: Any, rec: Recorder, state: dict, verbose: bool =
                 return False
     if not nodisc:
         gwy.config.disable_discovery = True
+    if tr is None:
+        return ok   # not yet started: nothing to receive from or to send through (the probes follow start())
     # 3. probes: still receiving, still tracking what it knows, still able to send
     state["n"] = state.get("n", 0) + 1
     val = 1000 + state["n"]
@@ -458,22 +467,92 @@ async def observe(gwy: Any, tr: Any, rec: Recorder, state: dict, verbose: bool =
     return ok
 
 
-async def run_history(rows: list[tuple[str, str]], eav: int, k: int, verbose: bool = False, nodisc: int = 1) -> dict:
-    """Feed the history to a real Gateway (sending enabled, echoes supplied); observe every k packets."""
+def cache_of(rows: list[tuple], n: int = 24) -> dict[str, str]:
+    """The snapshot an earlier session would have left of the first packets of the history ({dtm: packet line}, the
+    form get_state() returns), dated just before now; what the transport would have rejected is not in it."""
+    from ramses_tx.packet import Packet
+
+    out: dict[str, str] = {}
+    now = fakes.VDT.now()
+    for i, row in enumerate(rows[:n]):
+        try:
+            pkt = Packet(now - _dt.timedelta(seconds=n - i), f"045 {row[1]}")
+        except Exception:  # noqa: BLE001
+            continue
+        out[repr(pkt)[:26]] = repr(pkt)[27:]
+    return out
+
+
+async def unstarted_gateway(on_write: Any, config: dict) -> tuple[Any, Any]:
+    """fakes.make_port_gateway in two halves: (gwy, start) - the real Gateway("/dev/fake"), not yet started, and the
+    coroutine function that starts it on a FakeTransport and returns that transport."""
+    import ramses_tx.gateway as txgw
+    from ramses_rf import Gateway
+
+    loop = asyncio.get_running_loop()
+    fakes.VDT._loop = loop
+    cfg = {"disable_discovery": True, "disable_qos": False, "enforce_known_list": False}
+    cfg.update(config)
+    gwy = Gateway("/dev/fake", config=cfg, known_list={fakes.GWY_ID: {"class": "HGI"}})
+
+    async def start() -> Any:
+        holder: dict = {}
+
+        async def tf(protocol: Any, **kw: Any) -> Any:
+            holder["t"] = t = fakes.FakeTransport(protocol, loop, gwy_id=fakes.GWY_ID, on_write=on_write)
+            loop.call_soon(lambda: protocol.connection_made(t, ramses=True))
+            return t
+
+        old = txgw.transport_factory
+        txgw.transport_factory = tf
+        try:
+            await gwy.start()
+        finally:
+            txgw.transport_factory = old
+        for _ in range(5):
+            await asyncio.sleep(0)
+        return holder["t"]
+
+    return gwy, start
+
+
+async def run_history(rows: list[tuple[str, str]], eav: int, k: int, verbose: bool = False, nodisc: int = 1,
+                      pre: int = 0) -> dict:
+    """Feed the history to a real Gateway (sending enabled, echoes supplied); observe every k packets.
+    pre: the history begins at point zero - views, snapshots and restores (of an earlier session's snapshot) on the
+    gateway that has not been started yet (Engine.tla: tr = FALSE), then start() (Bind), then the packets."""
     loop = asyncio.get_running_loop()
 
     def on_write(t: Any, frame: str) -> None:
         t.rx(fakes.echo_of(frame, t.gwy_id), 0.01)
 
-    gwy, tr = await fakes.make_port_gateway(on_write=on_write, config={"enable_eavesdrop": bool(eav), "disable_discovery": True})
+    config = {"enable_eavesdrop": bool(eav), "disable_discovery": True}
     rec = Recorder()
     state: dict = {}
     exc0 = len(loop.exc)
-    n_fed = n_rej = 0
+    n_fed = n_rej = n_loop_exc = 0
     base_ts = None
     stopped = False
+    if pre:
+        gwy, start = await unstarted_gateway(on_write, config)
+        rec.bound = 0
+        if verbose:
+            print("  at point zero (not yet started)")
+        stopped = not await observe(gwy, None, rec, state, verbose, nodisc, cache=cache_of(rows))
+        tr = None
+        if not stopped:
+            before = proj(gwy, None)
+            tr = await start()
+            await vloop.drain()
+            rec.bound = 1
+            after = proj(gwy, tr)
+            rec.add("start", "start()", "ok", before, after, detail="after the operations at point zero")
+            if verbose:
+                print(f"  started: engine {after}")
+    else:
+        gwy, tr = await fakes.make_port_gateway(on_write=on_write, config=config)
     try:
-        for i, row in enumerate(rows):
+        for i, row in enumerate(rows if not stopped else ()):
             ts, frame = row[0], row[1]
             try:
                 t = _dt.datetime.fromisoformat(ts)
@@ -533,5 +612,5 @@ async def run_history(rows: list[tuple[str, str]], eav: int, k: int, verbose: bo
             await asyncio.wait_for(gwy.stop(), timeout=5)
         except Exception:  # noqa: BLE001
             pass
-    return {"nosend": 0, "nodisc": nodisc, "ev": rec.ev, "_detail": rec.detail, "_fed": n_fed, "_rejected": n_rej,
+    return {"nosend": 0, "nodisc": nodisc, "_pre": pre, "ev": rec.ev, "_detail": rec.detail, "_fed": n_fed, "_rejected": n_rej,
             "_loop_exc": n_loop_exc, "_stopped": stopped}
